@@ -153,6 +153,10 @@ def fill_block(rng, x, dotted, depth, exotic):
     if r < 0.95 and x >= 4 * MINX and x <= 4 and exotic:
         tg = rng.getrandbits(30)
         return [(_v_of(x / 4), 0, (7, 4, tg))] * 7
+    if r < 0.96 and x >= 8 * MINX and x <= 4 and exotic:
+        # a double-dotted value inside a triplet: written 7/8 + 1/8 + 1/2 of the bracket
+        tg = rng.getrandbits(30)
+        return [(_v_of(x / 2), 2, (3, 2, tg)), (_v_of(x / 8), 0, (3, 2, tg)), (_v_of(x / 2), 0, (3, 2, tg))]
     if r < 0.97 and x >= 4 * MINX and x <= 8 and exotic:
         # dotted values inside a triplet
         tg = rng.getrandbits(30)
@@ -1291,6 +1295,110 @@ def eval_export(d):
     return ev
 
 
+
+# ============================================================================ fixtures, dispatch
+FIXTURE_SKIP = {
+    "voice_duplication.krn": "header row malformed (two spaces instead of a tab between the first two **kern): load only",
+    "Bach_Hilf_Herr_Jesu.mei": "elements without xml:id (needs verovio, which is not installed): not loadable",
+    "mensural.mei": "mensural notation, elements without xml:id (needs verovio): not loadable",
+}
+
+
+def fixture_paths():
+    res = []
+    for sub, ext in (("kern", ".krn"), ("mei", ".mei")):
+        dd = os.path.join(REPO, "tests", "data", sub)
+        if os.path.isdir(dd):
+            for fn in sorted(os.listdir(dd)):
+                if fn.endswith(ext):
+                    res.append((sub, os.path.join("tests", "data", sub, fn)))
+    for sub, fn in (("kern", "score_example.krn"), ("mei", "score_example.mei")):
+        pth = os.path.join("partitura", "assets", fn)
+        if os.path.exists(os.path.join(REPO, pth)):
+            res.append((sub, pth))
+    return res
+
+
+def eval_fixture(d):
+    import partitura
+
+    ev = Eval()
+    path = os.path.join(REPO, d["path"])
+    name = os.path.basename(path)
+    skip = FIXTURE_SKIP.get(name)
+    if skip and "not loadable" in skip:
+        return ev
+    try:
+        score = partitura.load_score(path)
+        infos = extract_parts(score)
+    except Exception as e:
+        ev.oracle.append("fixture: %s does not load: %s: %s" % (name, type(e).__name__, str(e)[:200]))
+        return ev
+    for pi, inf in enumerate(infos):
+        if inf["nonint"] or inf["divs"].denominator != 1:
+            ev.oracle.append("divisions: fixture %s part %d: divs=%r leaves non-integer times %r" % (name, pi, inf["divs_raw"], inf["nonint"][:3]))
+    ev.key = "fixture:" + name
+    if skip:
+        return ev
+    if d["fmt"] == "kern":
+        text = open(path, encoding="cp437").read().replace("\r", "")
+        tx = impl_texts(infos, "kern")
+        for what in ("notes", "joined", "meas", "sigs"):
+            ev.requests.append(kern_request(what, text))
+            ev.impl.append(tx[what])
+    else:
+        evs = mei_events(open(path, "rb").read())
+        tx = impl_texts(infos, "mei")
+        tx["ppq"] = W.f_list(lambda i: W.f_rat(i["divs"]), infos)
+        for what in ("notes", "joined", "meas", "sigs", "ppq"):
+            ev.requests.append(mei_request(what, evs))
+            ev.impl.append(tx[what])
+    return ev
+
+
+TINY_KERN = "**kern\n*M4/4\n=1\n4c\n4d\n2e\n==\n*-\n"
+TINY_MEI = ('<?xml version="1.0" encoding="UTF-8"?>\n<mei xmlns="http://www.music-encoding.org/ns/mei"><music><body><mdiv><score>'
+            '<scoreDef meter.count="4" meter.unit="4"><staffGrp xml:id="g" symbol="none"><staffDef xml:id="P1" n="1" lines="5"/></staffGrp></scoreDef>'
+            '<section><measure xml:id="m1" n="1"><staff xml:id="s1" n="1"><layer xml:id="l1" n="1">'
+            '<note xml:id="n1" dur="4" pname="c" oct="4"/><note xml:id="n2" dur="4" pname="d" oct="4"/><note xml:id="n3" dur="2" pname="e" oct="4"/>'
+            '</layer></staff></measure></section></score></mdiv></body></music></mei>\n')
+
+
+def eval_dispatch(d):
+    """the loader picks the reader from the file extension (any case); other extensions are refused"""
+    ev = Eval()
+    want = [(F(0), F(1), "n", "C", 0, 4), (F(1), F(1), "n", "D", 0, 4), (F(2), F(2), "n", "E", 0, 4)]
+    for text, sufs in ((TINY_KERN, [".krn", ".kern", ".KRN", ".Kern"]), (TINY_MEI, [".mei", ".MEI"])):
+        for suf in sufs:
+            try:
+                infos = extract_parts(load_text(text, suf))
+                got = [n[:6] for i in infos for n in i["notes"]]
+                if got != want:
+                    ev.oracle.append("dispatch: load_score(doc%s) loaded %s" % (suf, got))
+            except Exception as e:
+                ev.oracle.append("dispatch: load_score(doc%s) raised %s: %s" % (suf, type(e).__name__, str(e)[:120]))
+    for text, suf in ((TINY_KERN, ".humdrum"), (TINY_MEI, ".meix"), (TINY_KERN, "")):
+        try:
+            load_text(text, suf)
+            ev.oracle.append("dispatch: load_score accepted the unknown extension %r" % suf)
+        except Exception:
+            pass
+    # the reader is chosen by the extension, not by the content
+    for text, suf in ((TINY_KERN, ".mei"), (TINY_MEI, ".krn")):
+        try:
+            infos = extract_parts(load_text(text, suf))
+            if [n[:6] for i in infos for n in i["notes"]] == want:
+                ev.oracle.append("dispatch: content sniffing: %s content loaded from a %s file" % ("kern" if text is TINY_KERN else "mei", suf))
+        except Exception:
+            pass
+    ev.requests.append(kern_request("notes", TINY_KERN))
+    ev.impl.append("[[(0,1,n,C,0,4,1,1,0,0),(1,1,n,D,0,4,1,1,0,0),(2,2,n,E,0,4,1,1,0,0)]]")
+    ev.requests.append(mei_request("notes", mei_events(TINY_MEI)))
+    ev.impl.append("[[(0,1,n,C,0,4,1,1,0,0),(1,1,n,D,0,4,1,1,0,0),(2,2,n,E,0,4,1,1,0,0)]]")
+    ev.key = "dispatch"
+    return ev
+
+
 # ============================================================================ cases
 def rand_layout(rng):
     return {"same_part": rng.random() < 0.5, "split": rng.random() < 0.5, "bar0": rng.random() < 0.85,
@@ -1305,6 +1413,9 @@ def cases(rng, tier):
     n = {"quick": 70, "thorough": 2000, "search": 1200}.get(tier, 70)
     chord_ties = any(k.get("key") == "F-C19-9" and k.get("status") == "open" for k in load_known())
     yield {"k": "tables"}
+    yield {"k": "dispatch"}
+    for fmt, pth in fixture_paths():
+        yield {"k": "fixture", "fmt": fmt, "path": pth}
     for i in range(n):
         seed = rng.getrandbits(48)
         r = random.Random(seed)
@@ -1338,6 +1449,10 @@ def evaluate(d):
         return eval_mei(d)
     if k in ("xkern", "xmei"):
         return eval_export(d)
+    if k == "fixture":
+        return eval_fixture(d)
+    if k == "dispatch":
+        return eval_dispatch(d)
     raise ValueError("unknown case kind %r" % k)
 
 
